@@ -1481,6 +1481,26 @@ class Interp:
             return Opaque("logger")
         if origin.startswith("warnings"):
             return None
+        if origin.startswith("itertools"):
+            import itertools as _it
+            seqs = [self.iterate(a, n) for a in args]
+            if leaf == "chain":
+                return [x for s_ in seqs for x in s_]
+            if leaf == "product":
+                rep = self.intval(kw["repeat"], n) if "repeat" in kw else 1
+                return [tuple(c) for c in _it.product(*seqs, repeat=rep)]
+            if leaf in ("combinations", "combinations_with_replacement", "permutations"):
+                r_ = self.intval(args[1], n) if len(args) > 1 else None
+                f_ = getattr(_it, leaf)
+                return [tuple(c) for c in (f_(self.iterate(args[0], n), r_) if r_ is not None else f_(self.iterate(args[0], n)))]
+            if leaf == "islice":
+                iv = [None if a is None else self.intval(a, n) for a in args[1:]]
+                return list(_it.islice(self.iterate(args[0], n), *iv))
+        if origin.startswith("operator") and leaf in ("itemgetter", "attrgetter"):
+            keys = list(args)
+            if leaf == "itemgetter":
+                return Opaque("callable", (lambda x, keys=keys: self.index(x, self.intval(keys[0], n), n) if len(keys) == 1 else
+                                           tuple(self.index(x, self.intval(k, n), n) for k in keys)))
         if leaf == "defaultdict":
             d = DDict()
             fac = args[0] if args else None
@@ -1544,6 +1564,8 @@ class Interp:
                 if v.ndim != 1:
                     raise self.unsupported("view of 2-D array as pose", n)
                 return Pose(c.name, list(v.data))
+            if isinstance(c, ClassRef) and c.name == "ndarray":
+                return Arr(v.data, v.ndim)      # a plain-ndarray view shares the data
             raise self.unsupported("view(%r)" % (c,), n)
         if name == "copy":
             if isinstance(v, Pose):
@@ -2299,6 +2321,15 @@ class Interp:
                 vals = [self.truth(x, n) for x in v.flat()]
                 return all(vals) if name == "all" else any(vals)
             raise self.unsupported("np.%s of %r" % (name, v), n)
+        if name == "isclose" and ("rel_tol" in kw or "abs_tol" in kw):
+            # math.isclose(a, b, rel_tol, abs_tol):  |a-b| <= max(rel_tol * max(|a|,|b|), abs_tol)
+            a, b = self.scalar(args[0], n), self.scalar(args[1], n)
+            d = self.absval(a - b, n)
+            rel = self.scalar(kw.get("rel_tol", Poly.const(1e-09)), n)
+            ab = self.scalar(kw.get("abs_tol", Poly.const(0)), n)
+            big = self.builtin("max", [self.absval(a, n), self.absval(b, n)], {}, n, {})
+            T = self.builtin("max", [rel * big, ab], {}, n, {})
+            return self.decide_sign(d - T, {-1, 0}, "|%s| <= tolerance" % (a - b).short(40))
         if name in ("isclose", "allclose"):
             a, b = self.maybe_arr(args[0], n), self.maybe_arr(args[1], n)
             fa = a.flat() if isinstance(a, Arr) else [self.scalar(a, n)]
@@ -2406,6 +2437,44 @@ class Interp:
                     return Arr([x for p_ in parts for x in p_.data], 1)
                 if all(p_.ndim == 2 for p_ in parts):
                     return Arr([sum((p_.data[i] for p_ in parts), []) for i in range(parts[0].shape[0])], 2)
+        if name == "einsum":
+            return self.einsum(args[0], [self.to_arr(a, n) if not isinstance(a, (Poly, Wrapped)) else a for a in args[1:]], n)
+        if name in ("stack", "column_stack", "row_stack"):
+            parts = [self.to_arr(x, n) if not isinstance(x, (Poly, Wrapped)) else Arr([self.scalar(x, n)], 1) for x in self.iterate(args[0], n)]
+            axis = self.intval(kw["axis"], n) if "axis" in kw else (self.intval(args[1], n) if len(args) > 1 else 0)
+            if name == "row_stack" or (name == "stack" and axis == 0):
+                if all(p_.ndim == 1 for p_ in parts):
+                    return Arr([list(p_.data) for p_ in parts], 2)
+            if name == "column_stack" or (name == "stack" and axis in (1, -1)):
+                if all(p_.ndim == 1 for p_ in parts):
+                    return Arr([list(r) for r in zip(*[p_.data for p_ in parts])], 2)
+                if name == "column_stack" and all(p_.ndim in (1, 2) for p_ in parts):
+                    cols = [p_ if p_.ndim == 2 else Arr([[x] for x in p_.data], 2) for p_ in parts]
+                    return Arr([sum((c.data[i] for c in cols), []) for i in range(cols[0].shape[0])], 2)
+            raise self.unsupported("np.%s of these shapes" % name, n)
+        if name == "linalg.multi_dot":
+            mats = [self.to_arr(x, n) for x in self.iterate(args[0], n)]
+            acc = mats[0]
+            for m_ in mats[1:]:
+                acc = self.dot(acc, m_, n)
+            return acc
+        if name in ("triu", "tril"):
+            a = self.to_arr(args[0], n)
+            k_ = self.intval(args[1], n) if len(args) > 1 else (self.intval(kw["k"], n) if "k" in kw else 0)
+            keep = (lambda i, j: j - i >= k_) if name == "triu" else (lambda i, j: j - i <= k_)
+            return Arr([[x if keep(i, j) else Poly() for j, x in enumerate(r)] for i, r in enumerate(a.data)], 2)
+        if name == "fill_diagonal":
+            a = args[0]
+            if isinstance(a, Arr) and a.ndim == 2:
+                v_ = self.scalar(args[1], n)
+                for i in range(min(a.shape)):
+                    a.data[i][i] = v_
+                return None
+        if name == "diag_indices":
+            k_ = self.intval(args[0], n)
+            return IndexSet([(i, i) for i in range(k_)])
+        if name == "isclose" and False:
+            pass
         if name == "array_equal":
             a, b = self.to_arr(args[0], n), self.to_arr(args[1], n)
             if a.shape != b.shape:
@@ -2416,6 +2485,59 @@ class Interp:
         if name == "isscalar":
             return isinstance(args[0], Poly)
         raise self.unsupported("numpy/math function %s" % name, n)
+
+    def einsum(self, spec, ops, n):
+        import itertools as _it
+        if not isinstance(spec, str):
+            raise self.unsupported("einsum with non-literal subscripts", n)
+        spec = spec.replace(" ", "")
+        if "..." in spec:
+            raise self.unsupported("einsum with ellipsis", n)
+        if "->" in spec:
+            ins, out = spec.split("->")
+        else:
+            ins = spec
+            letters = [c for c in ins if c != ","]
+            out = "".join(sorted(c for c in set(letters) if letters.count(c) == 1))
+        ins = ins.split(",")
+        if len(ins) != len(ops):
+            raise PathRaise("ValueError(einsum operands)", self.where(n))
+        dims = {}
+        for sub, op in zip(ins, ops):
+            shp = op.shape if isinstance(op, Arr) else ()
+            if len(sub) != len(shp):
+                raise PathRaise("ValueError(einsum subscripts do not match operand)", self.where(n))
+            for c, d in zip(sub, shp):
+                if dims.setdefault(c, d) != d:
+                    raise PathRaise("ValueError(einsum dimension mismatch)", self.where(n))
+        summed = [c for c in dims if c not in out]
+
+        def elem(op, sub, idx):
+            if not isinstance(op, Arr):
+                return self.scalar(op, n)
+            if op.ndim == 1:
+                return op.data[idx[sub[0]]]
+            return op.data[idx[sub[0]]][idx[sub[1]]]
+
+        def value(fixed):
+            acc = Poly()
+            for combo in _it.product(*[range(dims[c]) for c in summed]):
+                idx = dict(fixed)
+                idx.update(zip(summed, combo))
+                term = Poly.const(1)
+                for op, sub in zip(ops, ins):
+                    term = term * elem(op, sub, idx)
+                    if not term.t:
+                        break
+                acc = acc + term
+            return acc
+        if len(out) == 0:
+            return value({})
+        if len(out) == 1:
+            return Arr([value({out[0]: i}) for i in range(dims[out[0]])], 1)
+        if len(out) == 2:
+            return Arr([[value({out[0]: i, out[1]: j}) for j in range(dims[out[1]])] for i in range(dims[out[0]])], 2)
+        raise self.unsupported("einsum with a result of more than 2 dimensions", n)
 
     def absval(self, v, n):
         if isinstance(v, Arr):
